@@ -406,6 +406,14 @@ def h_cleanup_runs(sx):
     # later/other elements unaffected: scenarios keep the step statuses the reference predicts
     ex = runspec(w, flags)
     real = w.step_status_table()
+    if raised and flags["stop"]:
+        # --stop: a raising cleanup fails its scenario/feature, so the run legitimately ends there (the reference does not
+        # model cleanup errors); what ran before is still compared
+        cut = [e.eid for e in w.scenario_elems()]
+        first_bad = min([cut.index(o) for o in bad_owners if o in cut] or [len(cut)])
+        keep = set(cut[:first_bad + 1])
+        real = {k: v for k, v in real.items() if k in keep}
+        ex.steps = {k: v for k, v in ex.steps.items() if k in keep}
     sx.check(real == ex.steps, "C13.run.steps-unaffected-by-cleanup-errors", detail=lambda m: dict(det(m), real=real, expected=ex.steps))
     for e in w.scenario_elems():
         if e.eid in bad_owners or any(a.eid in bad_owners for a in e.ancestors()):
